@@ -25,7 +25,7 @@ FINISH = dict(
     trusted=['segyio', 'numpy', 'TLC'])
 
 MODES = ('heuristic', 'thorough', 'exhaustive', 'strip')
-SET3D = [(16, None), (32, (8, 8, 16)), (32, (16, 16, 4))]
+SET3D = [(16, None), (32, (8, 8, 16)), (32, (16, 16, 4)), (0.5, None)]       # (less than one bit per voxel: every length in the header comes from a fractional rate)
 SET2D = [(16, None), (8, (1, 4, -1)), (32, (1, 8, 128))]
 _K = [None]
 
@@ -350,11 +350,11 @@ def plan(run):
         kind = GEOMS[g][0]
         key, mat = chosen[int(rng.integers(len(chosen)))]
         # the headers are captured plane set by plane set: block heights 4 / 8 / 16 (and 2-D trace groups of 4 / 8 / 16)
-        st = (SET2D if kind.startswith('2d') else SET3D)[k % 3]
+        st = SET2D[k % 3] if kind.startswith('2d') else SET3D[k % 4]
         cases.append({'geom': g, 'embed': k % len(EMBED), 'vmap': k % 4, 'bg': ('ramp', 'mix')[k % 2], 'mat': mat, 'onemid': False,
                       'modes': [m for m in MODES if not (kind == 'irr' and m == 'strip')], 'cls': list(key[0]), 'setting': st})
         if quick:       # and the same source under the next setting
-            st2 = (SET2D if kind.startswith('2d') else SET3D)[(k + 1) % 3]
+            st2 = SET2D[(k + 1) % 3] if kind.startswith('2d') else SET3D[(k + 1) % 4]
             cases.append({'geom': g, 'embed': (k + 3) % len(EMBED), 'vmap': (k + 1) % 4, 'bg': 'mix', 'mat': mat, 'onemid': False,
                           'modes': ['thorough', 'heuristic'], 'cls': list(key[0]), 'setting': st2})
     # every embedding with a word whose values differ by a tiny relative amount only (equal under a float tolerance, not as integers)
